@@ -2,9 +2,12 @@
 
 Exhaustive product of pairs (system0, system1) on one lattice:
   num_wann x lattice x relation of the two R-vector lists {equal, permuted, 0 inside 1, 1 inside 0,
-  overlapping} x matrix sets {equal, different (only the common ones survive), Ham only} x centres
+  overlapping}, each with compact lists (union box 3x3x3 / 5x3x7) and with "layered-model" lists whose union box is
+  longer along a later axis than along an earlier one (3x3x7, 3x7x7, 1x1x7 inside 3x3x7: R_z = +-3 with R_x, R_y = +-1)
+  x matrix sets {equal, different (only the common ones survive), Ham only} x centres
   {same, different}; every alpha of the alphabet {0, 1/4, 1/2, 1, -1/2, 3/2} is evaluated inside a case.
-Plus SOC pairs through SystemInterpolatorSOC (nspin 1/1, 2/2, 1/2; different up/down R lists).
+Plus SOC pairs through SystemInterpolatorSOC (nspin 1/1, 2/2, 1/2; different up/down R lists; also with the
+anisotropic lists in the spin channels and the spin-orbit term on the R-set of a 2x2x4 mesh, box 3x3x5).
 
 Oracles
  (R)  independent reference model: matrices re-embedded by R-tuple lookup on the union set,
@@ -24,12 +27,16 @@ import numpy as np
 
 ID = "C26"
 LEVEL = "exploration"
-RULE = ("cases = pairs of systems (num_wann, lattice, R-list relation, matrix-set relation, centres same/different, "
+RULE = ("cases = pairs of systems (num_wann, lattice, R-list relation [5 relations x {compact lists, lists whose union "
+        "bounding box grows along a later axis: 3x3x7, 3x7x7, 5x3x7, or along the first: 7x3x3, 7x7x3}], matrix-set relation, centres same/different, "
         "plain or SOC); each case runs every alpha in {0,.25,.5,1,-.5,1.5}; a case is non-trivial when the two "
         "systems really differ in a respect the interpolator must handle (the R lists differ as lists, or the centres "
-        "differ, or a matrix present in only one system is dropped)")
+        "differ, or a matrix present in only one system is dropped); the extents of the union box of every pair are "
+        "recorded (coverage: distinct_union_boxes)")
 ASSUMPTIONS = [
-    "pairs are in-memory zoo systems (num_wann 1-3, tric/hex(/fcc) lattices, R-sets shell1/shell2/lopsided) with generic matrices; "
+    "pairs are in-memory zoo systems (num_wann 1-3, tric/hex(/fcc) lattices, R-sets shell1/shell2/lopsided from the zoo "
+    "and the local explicit lists tallz (shell1 + R_z up to +-3, 15 vectors), tally (same along y), zonly3 (0 and (0,0,+-3))) with generic matrices; "
+    "union bounding boxes covered: 3x3x3, 3x3x5 (SOC term, 2x2x4 mesh), 3x3x7, 3x7x3, 3x7x7, 5x3x7, 7x3x3, 7x7x3 - not: |R| > 3, lists without R=0; "
     "same lattice, same num_wann, both spin-orbit systems carry a spin-orbit term (the constructor requires rvec)",
     "k alphabet: Gamma, X, two generic points; observables compared only where bands are non-degenerate (gap > 1e-3: the tabulators average bands closer than degen_thresh=1e-4)",
     "the derivative matrices Xbar(name,1) and Berry curvature count as 'matrices at every k' (they depend on the centres)",
@@ -46,6 +53,7 @@ _TALLZ = _SHELL1 + [(0, 0, 2), (0, 0, -2), (0, 0, 3), (0, 0, -3), (1, 0, 3), (-1
 LOCAL_RSETS = {
     "tallz": _TALLZ,                                     # box 3 x 3 x 7
     "tally": [(x, z, y) for (x, y, z) in _TALLZ],        # box 3 x 7 x 3
+    "tallx": [(z, y, x) for (x, y, z) in _TALLZ],        # box 7 x 3 x 3 (longer along the FIRST axis: the mirror situation)
     "zonly3": [(0, 0, 0), (0, 0, 3), (0, 0, -3)],        # box 1 x 1 x 7 : R_z = +-3 only
 }
 R_REL = {  # label -> (rs0, rs1, order of list 1)
@@ -54,7 +62,7 @@ R_REL = {  # label -> (rs0, rs1, order of list 1)
     "0_in_1": ("shell1", "shell2", "id"),
     "1_in_0": ("shell2", "shell1", "id"),
     "overlap": ("shell1", "lopsided", "id"),
-    # the same five relations with a union box that grows along later axes (3x3x7, 3x7x7, 5x3x7)
+    # the same five relations with a union box that grows along later axes (3x3x7, 3x7x7, 5x3x7), and two with a box longer along x
     "equal_tall": ("tallz", "tallz", "id"),
     "permuted_tall": ("tallz", "tallz", "rev"),
     "0_in_1_tall": ("shell1", "tallz", "id"),
@@ -62,6 +70,8 @@ R_REL = {  # label -> (rs0, rs1, order of list 1)
     "overlap_zonly3": ("shell1", "zonly3", "id"),        # only R=0 in common
     "overlap_tall": ("tally", "tallz", "id"),
     "overlap_lopsided_tall": ("lopsided", "tallz", "id"),
+    "0_in_1_tallx": ("shell1", "tallx", "id"),           # 7x3x3
+    "overlap_tallx": ("tallx", "tally", "id"),           # 7x7x3
 }
 R_REL_BASE = ("equal", "permuted", "0_in_1", "1_in_0", "overlap")
 R_REL_TALL = tuple(r for r in R_REL if r not in R_REL_BASE)
@@ -92,17 +102,10 @@ def cases(tier, seed):
     for nw in nws:
         for lat in lats:
             for rrel in R_REL:
-                tall = rrel in R_REL_TALL
                 for mrel in MAT_REL:
                     if tier == "quick" and mrel == "rich" and (lat == "hex" or nw == 1):
                         continue
-                    if tier == "quick" and tall:
-                        # reduced product for the anisotropic-box relations: the R-list merge does not look at the matrices
-                        if mrel not in ("equal", "different") or (nw, lat) not in ((2, "tric"), (1, "hex")):
-                            continue
                     for crel in cens:
-                        if tier == "quick" and tall and (mrel, crel) == ("different", "same"):
-                            continue
                         out.append({"kind": "R", "nw": nw, "lat": lat, "rrel": rrel, "mrel": mrel, "crel": crel})
     # spin-orbit pairs
     for nw in ((1,) if tier == "quick" else (1, 2)):
@@ -118,8 +121,8 @@ def cases(tier, seed):
     # spin-orbit pairs with anisotropic boxes: the spin channels live on the "tall" lists and the spin-orbit term on the
     # Wigner-Seitz set of a 2x2x4 mesh (R_z up to +-2, R_x, R_y up to +-1), a 2x2x2 mesh for the other system
     for nw in ((1,) if tier == "quick" else (1, 2)):
-        for spins in (("22", "12") if tier == "quick" else ("11", "22", "12", "21")):
-            for rrel in (("overlap_tall",) if tier == "quick" else ("0_in_1_tall", "1_in_0_tall", "overlap_tall")):
+        for spins in ("11", "22", "12", "21"):
+            for rrel in (("0_in_1_tall", "overlap_tall") if tier == "quick" else ("0_in_1_tall", "1_in_0_tall", "overlap_tall")):
                 for crel in (("different",) if tier == "quick" else ("same", "different")):
                     out.append({"kind": "soc", "nw": nw, "lat": "tric", "spins": spins, "rrel": rrel,
                                 "crel": crel, "aa": False, "mp": [[2, 2, 4], [2, 2, 2]]})
